@@ -208,7 +208,16 @@ def run(chk):
     nx = 0
     text_funcs = [fi for fq, fi in sorted(ix.functions.items())
                   if fi.module.name in ('utils', 'factories') or
-                  (fi.module.name == 'base_datatypes' and ((fi.cls is None and fi.outer is None) or (fi.cls is not None and fi.cls.name in ('DT', 'TM', 'DTM', 'DateTimeDataType'))))]
+                  (fi.module.name == 'base_datatypes' and fi.cls is not None and fi.cls.name in ('DT', 'TM', 'DTM', 'DateTimeDataType'))]
+    # module-level helpers that those constructors hand (a piece of) their text to
+    for fi in list(text_funcs):
+        if fi.module.name != 'base_datatypes':
+            continue
+        for n in own_nodes(fi.node):
+            if isinstance(n, ast.Call) and isinstance(n.func, ast.Name) and n.func.id in fi.module.functions:
+                h = fi.module.functions[n.func.id]
+                if h.cls is None and h.outer is None and h not in text_funcs:
+                    text_funcs.append(h)
     for fi in text_funcs:
         params = set(fi.params)
         # locals cut out of a parameter (slices, tuple results of the offset splitter) are text as well
